@@ -355,29 +355,28 @@ func scriptAuthz(t *rapid.T, spec Spec) *script {
 			Enc:  rapid.IntRange(0, 2).Draw(t, "execenc"),
 			Amt:  rapid.Int64Range(1, 600).Draw(t, "execsmall"),
 		}
-		if rapid.IntRange(0, 9).Draw(t, "inbounds") < 7 {
-			// a message the grant is meant to cover
-			if grant.AR > 0 {
-				op.R = grant.AR - 1
-			}
-			switch grant.AMem {
+		// a message the grant is meant to cover ...
+		if grant.AR > 0 {
+			op.R = grant.AR - 1
+		}
+		switch grant.AMem {
+		case 0:
+			op.Memo = 0
+		case 2:
+			op.Memo = 1
+		}
+		op.Via = 0
+		if gk == 2 {
+			op.Via = 1
+		}
+		if lim > 0 {
+			op.Amt = rapid.Int64Range(1, lim/3).Draw(t, "withinlim")
+		}
+		// ... with, in a third of the cases, exactly one deviation
+		if rapid.IntRange(0, 2).Draw(t, "deviate") == 0 {
+			switch rapid.IntRange(0, 8).Draw(t, "execdev") {
 			case 0:
-				op.Memo = 0
-			case 2:
-				op.Memo = 1
-			}
-			op.Via = 0
-			if gk == 2 {
-				op.Via = 1
-			}
-			if lim > 0 {
-				op.Amt = rapid.Int64Range(1, lim/3).Draw(t, "withinlim")
-			}
-		} else {
-			op.Inner = rapid.SampledFrom([]int{0, 0, 1}).Draw(t, "inner")
-			switch rapid.IntRange(0, 5).Draw(t, "execdev") {
-			case 0:
-				op.AM = 1
+				op.AM = 1 // entire balance (MaxUint256 sentinel for MsgTransfer)
 			case 1:
 				op.Amt = lim + rapid.Int64Range(1, 50).Draw(t, "overlim")
 			case 2: // somebody who holds no grant
@@ -385,7 +384,15 @@ func scriptAuthz(t *rapid.T, spec Spec) *script {
 			case 3: // not wrapped at all: the grantee signs a message that names the granter
 				op.Exec = false
 			case 4: // a different route than the one granted
-				op.L = rapid.IntRange(0, 5).Draw(t, "otherroute")
+				op.L = li + rapid.IntRange(1, 4).Draw(t, "otherroute")
+			case 5: // a receiver that may not be on the allow list
+				op.R = op.R + rapid.IntRange(1, NAcct-1).Draw(t, "otherreceiver")
+			case 6: // a memo that may not be allowed
+				op.Memo = op.Memo + rapid.IntRange(1, 2).Draw(t, "othermemo")
+			case 7: // the other message type than the one granted
+				op.Via = 1 - op.Via
+			case 8: // MsgExec of one's own MsgSendPacket naming the granter as payload sender
+				op.Via, op.Inner = 1, 1
 			}
 		}
 		ti := sc.add(op, -1)
